@@ -239,35 +239,55 @@ def probe_shape(name, D, shape):
     R = S.registry()
     rng = np.random.default_rng(0)
     N = 6
+    rep = None
+    if name.startswith("RepeatedStepper:"):
+        _, name, rep = name.split(":")
     if name == "Wave":
         st = ex.stepper.Wave(D, 2.0, N, 0.1)
+    elif name == "Poisson":
+        st = ex.poisson.Poisson(D, 2.0, N)
     else:
         st = R[name](rng, D, N, 1).build()
-    C = st.num_channels
+    C = getattr(st, "num_channels", 1)
+    if rep is not None:
+        st = ex.RepeatedStepper(st, int(rep))
     good = (C,) + (N,) * D
     impl, oshape = call_outcome(st, tuple(shape))
     expected = "accept" if tuple(shape) == good else "ValueError"
+    if name == "Poisson" and rep is None:
+        # the solver is channel-agnostic ("C ... N"): any leading channel count, exactly D spatial axes of length N
+        expected = "accept" if (len(shape) == D + 1 and tuple(shape[1:]) == (N,) * D) else "ValueError"
+        good = tuple(shape)
     return {"ok": impl == expected and (oshape is None or tuple(oshape) == good), "outcome": impl, "expected": expected,
             "configured": list(good)}
 
 
 def oracle(ctx, deep):
     fails = []
-    names = ["Burgers", "Diffusion", "KuramotoSivashinsky", "Wave", "GrayScott", "NavierStokesVorticity"]
+    names = ["Burgers", "Diffusion", "KuramotoSivashinsky", "Wave", "GrayScott", "NavierStokesVorticity",
+             "RepeatedStepper:Advection:1", "RepeatedStepper:Burgers:3", "RepeatedStepper:GrayScott:2", "Poisson"]
     if deep:
-        names = exported_stepper_names()
+        names = exported_stepper_names() + ["RepeatedStepper:Advection:1", "RepeatedStepper:Burgers:3", "RepeatedStepper:Wave:2",
+                                            "RepeatedStepper:GrayScott:2", "RepeatedStepper:NavierStokesVorticity:2", "Poisson"]
     for name in names:
         for D in (1, 2, 3):
             if name in DIM_ONLY and DIM_ONLY[name] != D:
                 continue
             ex = _ex()
             N = 6
-            C = 2 if name == "Wave" else None
+            inner = name.split(":")[1] if name.startswith("RepeatedStepper:") else name
+            if inner in DIM_ONLY and DIM_ONLY[inner] != D:
+                continue
             try:
-                st = ex.stepper.Wave(D, 2.0, N, 0.1) if name == "Wave" else S.registry()[name](np.random.default_rng(0), D, N, 1).build()
+                if inner == "Wave":
+                    st = ex.stepper.Wave(D, 2.0, N, 0.1)
+                elif inner == "Poisson":
+                    st = ex.poisson.Poisson(D, 2.0, N)
+                else:
+                    st = S.registry()[inner](np.random.default_rng(0), D, N, 1).build()
             except Exception:
                 continue
-            C = st.num_channels
+            C = getattr(st, "num_channels", 1)
             for shape in malformed_shapes(C, D, N):
                 r = probe_shape(name, D, shape)
                 ctx.count(("oracle", name, D, tuple(shape)))
